@@ -550,6 +550,40 @@ impl<'ast> Visit<'ast> for V {
     }
 }
 
+
+/// the arms of the `match arg.as_str()` in opts.rs `parse_args`: every literal flag name, and every `starts_with` guard
+struct ArmV { lits: Vec<String>, prefixes: Vec<String>, in_parse_args: bool }
+impl<'ast> Visit<'ast> for ArmV {
+    fn visit_item_fn(&mut self, f: &'ast syn::ItemFn) {
+        let was = self.in_parse_args;
+        if f.sig.ident == "parse_args" { self.in_parse_args = true; }
+        syn::visit::visit_item_fn(self, f);
+        self.in_parse_args = was;
+    }
+    fn visit_expr_match(&mut self, m: &'ast syn::ExprMatch) {
+        let scrut = { let e = &m.expr; quote::quote!(#e).to_string().replace(' ', "") };
+        if self.in_parse_args && scrut == "arg.as_str()" {
+            fn pat_lits(p: &syn::Pat, out: &mut Vec<String>) {
+                match p {
+                    syn::Pat::Lit(l) => { if let syn::Lit::Str(s) = &l.lit { out.push(s.value()); } }
+                    syn::Pat::Or(o) => { for c in &o.cases { pat_lits(c, out); } }
+                    _ => {}
+                }
+            }
+            for arm in &m.arms {
+                pat_lits(&arm.pat, &mut self.lits);
+                if let Some((_, g)) = &arm.guard {
+                    let gs = quote::quote!(#g).to_string();
+                    if let Some(i) = gs.find("starts_with") {
+                        if let Some(a) = gs[i..].find('"') { if let Some(b) = gs[i + a + 1..].find('"') { self.prefixes.push(gs[i + a + 1..i + a + 1 + b].to_string()); } }
+                    }
+                }
+            }
+        }
+        syn::visit::visit_expr_match(self, m);
+    }
+}
+
 fn main() {
     let src_dir = std::env::args().nth(1).unwrap_or_else(|| "/repo/filter-repo-rs/src".to_string());
     let mut v = V { file: String::new(), func: String::new(), guards: vec![], sites: vec![], events: BTreeMap::new(), wait_vars: BTreeMap::new(),
@@ -690,6 +724,20 @@ fn main() {
         out.push_str(&per_file.iter().map(|(f, n)| format!("  (.{}, {n})", file_ctor(f))).collect::<Vec<_>>().join(",\n"));
         out.push_str("\n]\n\n");
         out.push_str(&format!("/- {name} detail: {}\n-/\n\n", count_by(xs).iter().map(|((f, func), n)| format!("{f}.rs::{func} ×{n}")).collect::<Vec<_>>().join("; ")));
+    }
+    // opts.rs parse_args: the flag names the argument loop knows (the model of the command line must know exactly these)
+    {
+        let text = std::fs::read_to_string(std::path::Path::new(&src_dir).join("opts.rs")).expect("read opts.rs");
+        let ast = syn::parse_file(&text).expect("parse opts.rs");
+        let mut av = ArmV { lits: vec![], prefixes: vec![], in_parse_args: false };
+        av.visit_file(&ast);
+        let bytes = |s: &String| format!("[{}]", s.bytes().map(|b| b.to_string()).collect::<Vec<_>>().join(", "));
+        out.push_str("/-- opts.rs parse_args: every literal arm of `match arg.as_str()`, in order (as bytes) -/\ndef cliFlagArms : List (List UInt8) := [\n");
+        out.push_str(&av.lits.iter().map(|l| format!("  {}", bytes(l))).collect::<Vec<_>>().join(",\n"));
+        out.push_str(&format!("\n]\n\n/- cliFlagArms: {}\n-/\n\n", av.lits.join(" ")));
+        out.push_str("/-- the `starts_with` guards of the same match -/\ndef cliPrefixArms : List (List UInt8) := [\n");
+        out.push_str(&av.prefixes.iter().map(|l| format!("  {}", bytes(l))).collect::<Vec<_>>().join(",\n"));
+        out.push_str("\n]\n\n");
     }
     out.push_str("end Frrs.Extracted\n");
     print!("{out}");
